@@ -100,6 +100,25 @@ mut("asm-trampoline-args-swapped", ASM, "    mov rdi, r13\n    mov rsi, r14", " 
 mut("coro-exit-to-caller", CO, "    cmi_coroutine_transfer(cp->parent, retval);", "    cmi_coroutine_transfer(cp->caller, retval);", ["C03"])
 mut("coro-exit-value-lost", CO, "    cp->exit_value = retval;\n    cp->status = CMI_COROUTINE_FINISHED;\n    cmi_coroutine_transfer", "    cp->status = CMI_COROUTINE_FINISHED;\n    cmi_coroutine_transfer", ["C03", "C09"])
 
+# --- statistics, random, experiment, mempool (independent cross-check of the builder-made checks) ----------
+DS = "src/cmb_datasummary.c"
+WS = "src/cmb_wtdsummary.c"
+TS = "src/cmb_timeseries.c"
+DA = "src/cmb_dataset.c"
+RN = "src/cmb_random.c"
+CI = "src/cimba.c"
+MP = "src/cmi_mempool.c"
+mut("summary-m4-update-3-instead-of-6", DS, "- 6.0 * d_n_2 * dsp->m2 - 4.0 * d_n * dsp->m3;", "- 3.0 * d_n_2 * dsp->m2 - 4.0 * d_n * dsp->m3;", ["C17"])
+mut("summary-merge-m3-n1-n2-swapped", DS, "+ 4.0 * (n1 * dsp2->m3 - n2 * dsp1->m3) * d21_n;", "+ 4.0 * (n2 * dsp2->m3 - n1 * dsp1->m3) * d21_n;", ["C17"])
+mut("ts-sort-leaves-weight-behind", TS, "            cmi_dataset_swap(&(tsp->wa[0]), &(tsp->wa[ui]));\n", "", ["C18"])
+mut("ts-sort-heapify-skips-one-array", TS, "            cmi_dataset_swap(&da2[uroot], &da2[ubig]);\n", "", ["C18"])
+mut("random-19-discards", RN, "    for (int i = 0; i < 20; i++) {", "    for (int i = 0; i < 19; i++) {", ["C15"])
+mut("random-sfc64-shift-changed", RN, "prng_state.b = prng_state.c + (prng_state.c << 3);", "prng_state.b = prng_state.c + (prng_state.c << 2);", ["C15", "C16"])
+mut("experiment-bound-off-by-one", CI, "        if (idx >= cmg_total_trials) {", "        if (idx + 1u >= cmg_total_trials) {", ["C19"])
+mut("experiment-non-atomic-dispenser", CI, "const uint64_t idx = __atomic_fetch_add(&cmg_next_trial_idx, 1, __ATOMIC_SEQ_CST);", "const uint64_t idx = cmg_next_trial_idx; cmg_next_trial_idx = idx + 1u;", ["C19"])
+mut("mempool-free-does-not-link", "src/cmi_mempool.h", "    *(void **)op = mp->next_obj;\n    mp->next_obj = op;", "    mp->next_obj = op;", ["C20", "C10"])
+mut("mempool-last-object-not-terminated", MP, "    /* Set the next pointer in the last object to NULL, end of the list */\n    *vp = NULL;", "    /* Set the next pointer in the last object to NULL, end of the list */", ["C20", "C10"])
+
 
 def run(cmd, **kw):
     return subprocess.run(cmd, stdout=subprocess.PIPE, stderr=subprocess.STDOUT, **kw)
